@@ -419,6 +419,7 @@ def replay(case, conc, cand=None):
 
 
 META = {
+    "glue": ['groupby_lib/groupby/core.py::_factorize_group_key_in_chunks', 'groupby_lib/groupby/core.py::_group_sort_indexer', 'groupby_lib/groupby/core.py::count_ikey', 'groupby_lib/groupby/factorization.py::factorize_2d', 'groupby_lib/groupby/factorization.py::factorize_range_index', 'groupby_lib/groupby/factorization.py::monotonic_factorization'],
     "bounds": {"quick": {"N": 4, "keys": "2 keys with label counts (2,2),(1,3),(3,2),(2,1)", "monotonic chunks": "<= 2", "sorted indexer": "N=4, G=2"},
                "thorough": {"N": 6, "keys": "2-3 keys, label counts in 1..3", "monotonic chunks": "<= 3", "sorted indexer": "N=5, G=3"}},
     "enumerated": ["for the chunk-wise constructor path: every key sequence of the bound over {1,2,3,null} and every 2-chunk layout, sort on/off (values symbolic)",
